@@ -104,6 +104,22 @@ def follow(states, start, path):
     return cur
 
 
+def native_search(start, target_name):
+    """Run the REAL StateMachineState.search natively: -> (list of transition names | None, 'returned' | 'raised <Type>')."""
+    from replay.native import repo_import
+
+    sm = repo_import(MOD)
+    cls = getattr(sm, start)
+    inst = cls.__new__(cls)
+    inst.name = "design"
+    inst._history = [cls.state_id()]
+    try:
+        got = inst.search(getattr(sm.StateId, target_name), debug=False)
+        return (list(got) if isinstance(got, (list, tuple)) else None), "returned"
+    except Exception as e:
+        return None, f"raised {type(e).__name__}"
+
+
 def check_search(run, fn):
     I = new_interp()
     states = extract_graph(I)
@@ -124,6 +140,11 @@ def check_search(run, fn):
                 outcome = "returned"
             except PyRaise as e:
                 got_list, outcome = None, f"raised {e.exc_type}"
+            except Unsupported as u:
+                # a construct outside the interpreter's subset: the real function is run natively instead (the state space is finite,
+                # so this is still exhaustive); recorded as a bounded stand-in, not as a proof
+                run.undecided.append(f"{name} (interpreter: {u}; decided by running the real search natively)")
+                got_list, outcome = native_search(start, tid.name)
             if want is None:
                 good = outcome == "raised ValueError"
                 ob = run.prove(name + ".unreachable_raises_ValueError", [], z3.BoolVal(good), function=fn)
